@@ -356,6 +356,9 @@ func genDpt(dpt *pkg) string {
 		fmt.Fprintf(&sb, "  (%q, %s, %q, %s)%s\n", r[0], codePoints(r[0]), r[1], codePoints(r[1]), sep)
 	}
 	sb.WriteString("]\n\n")
+	if regOther > 0 || len(reg) == 0 {
+		noteIncomplete(fmt.Sprintf("registry: %d entries of the dptTypes table are not of the form \"key\": new(T) (or the table was not found)", regOther))
+	}
 	fmt.Fprintf(&sb, "/-- map entries that are not of the form `\"key\": new(T)` -/\ndef registryOtherEntries : Nat := %d\n\n", regOther)
 	sb.WriteString("/-- every `type DPT_… ` declared in the package, as code points -/\ndef declared : List (String × List Nat) := [\n")
 	for i, n := range order {
